@@ -214,3 +214,77 @@ def h_auto(sc: int, kind: int, s: str):
             assert ch not in text, "raw %r from the value in escaped output %r" % (ch, out)
         assert "&" not in (text.replace("&amp;", "").replace("&lt;", "").replace("&gt;", "")
                            .replace("&quot;", "").replace("&#x27;", ""))
+
+
+# ------------------------------------------------------------------ precedence of autoescape sources
+# Template(text, loader=L, autoescape=X) with L built with its own setting, optionally a directive in the
+# text.  The effective function for tags written in that text is derived from the documented precedence:
+# {% autoescape %} directive  >  explicit Template(autoescape=) argument  >  loader default  >  module
+# default (xhtml_escape).  An included file is loaded through the loader and so gets the LOADER default,
+# whatever the including Template was given.
+_SRC = [_DEF, None, "xhtml_escape", "myesc"]        # _DEF = not given
+
+
+def _fn(name):
+    return R if name is None else M if name == "myesc" else E
+
+
+def _effective(la, ta, di):
+    loader_default = "xhtml_escape" if la is _DEF else la
+    if di is not _DEF:
+        return di
+    if ta is not _DEF:
+        return ta
+    return loader_default
+
+
+def pre_prec(la: int, ta: int, di: int, kind: int, s: str) -> bool:
+    if not (0 <= la <= 3 and 0 <= ta <= 3 and 0 <= di <= 3 and 0 <= kind < P.K and len(s) <= P.L):
+        return False
+    for c in s:
+        if 0xD800 <= ord(c) <= 0xDFFF:
+            return False
+    return in_shard(la * 4 + ta)
+
+
+@harness(pre=pre_prec, quick=dict(L=1, K=2, timeout=100, reach_timeout=100), thorough=dict(L=2, K=3, timeout=900),
+         nshards=dict(quick=16, thorough=16),
+         reach=["explicit_beats_loader_none", "explicit_none_beats_loader", "directive_beats_both",
+                "omitted_takes_loader_default"],
+         units=["template.Template.__init__ (autoescape / loader precedence)", "template._parse (autoescape)",
+                "template._Expression.generate", "template.DictLoader", "template._IncludeBlock.generate"],
+         stubs=[PRINT_STUB,
+                "loader setting la, Template argument ta and directive di each chosen by symbolic index from "
+                "{not given, None, 'xhtml_escape', 'myesc'} (all 64 combinations); text = [directive] + "
+                "'{{ v }}|{% raw v %}|{% include \"b\" %}' with b = '{{ v }}' loaded through the loader; value "
+                "symbolic as in h_auto"],
+         outside=["values longer than L"])
+def h_prec(la: int, ta: int, di: int, kind: int, s: str):
+    """directive > explicit Template(autoescape=) > loader default > module default; an included file
+    takes the loader default."""
+    lv, tv, dv = _SRC[la], _SRC[ta], _SRC[di]
+    v = s if kind == 0 else _Obj(s) if kind == 1 else s.encode("utf-8")
+    text = "{{ v }}|{% raw v %}|{% include 'b' %}"
+    if dv is not _DEF:
+        text = "{% autoescape " + ("None" if dv is None else dv) + " %}" + text
+    files = {"b": "{{ v }}"}
+    ns = {"wrap": _wrap, "myesc": _myesc}
+    loader = T.DictLoader(files, namespace=ns) if lv is _DEF else T.DictLoader(files, namespace=ns, autoescape=lv)
+    if tv is _DEF:
+        t = T.Template(text, name="m", loader=loader)
+    else:
+        t = T.Template(text, name="m", loader=loader, autoescape=tv)
+    out = t.generate(v=v)
+    eff = _effective(lv, tv, dv)
+    inc = "xhtml_escape" if lv is _DEF else lv
+    want = (_fn(eff)(s) + "|" + s + "|" + _fn(inc)(s)).encode("utf-8")
+    assert out == want, "loader=%r Template(autoescape=%r) directive=%r: generated %r, precedence demands %r" % (
+        lv, tv, dv, out, want)
+    if la == 1 and ta == 2 and di == 0:
+        reached("explicit_beats_loader_none")
+    if la == 2 and ta == 1 and di == 0:
+        reached("explicit_none_beats_loader")
+    if di != 0 and ta != 0 and ta != di:
+        reached("directive_beats_both")
+    if ta == 0 and di == 0 and la != 0:
+        reached("omitted_takes_loader_default")
